@@ -359,92 +359,251 @@ theorem seekEnd_gap (hraw : commentsRaw = true) (ws : Bytes) (hws : ws.all isSpa
     simp only [seekEnd, e1, beq_self_eq_true, ↓reduceIte, List.head?_cons, hsc, Bool.false_eq_true]
     exact he
 
-/-- the parameter tokens the composition covers, with the references they mention:
-    any token of bytes without `( ) / ' = #` (`$`, `*`, INTEGER, REAL, NUMBER, `.ENUM.`, `"BINARY"`), a string literal of the
-    grammar, an entity reference -/
-inductive LazyTok : List Nat → List Nat → Prop where
-  | plain (t : List Nat) (h : t.all lplain = true) : LazyTok t []
-  | string (b : List Nat) (h : StringBody b) : LazyTok (39 :: (b ++ [39])) []
-  | ref (ds : List Nat) (hne : ds ≠ []) (hds : ds.all StepModel.isDigit = true)
-      (hhi : StepModel.digitsVal ds 0 ≤ instanceIdMax) : LazyTok (35 :: ds) [StepModel.digitsVal ds 0]
+/-- the byte sequences `seekInstanceEnd` passes at any parenthesis depth ≥ 1, leaving the depth as it found it, with the references it
+    records on the way: bytes without `( ) / ' = #`, string literals of the grammar, entity references, comments, and parenthesised
+    sequences of the same kind — nested to any depth (aggregates, typed SELECT values, aggregates of them) -/
+inductive LSeq : List Nat → List Nat → Prop where
+  | nil : LSeq [] []
+  | plain (c : Nat) (t refs : List Nat) (hc : lplain c = true) (ht : LSeq t refs) : LSeq (c :: t) refs
+  | str (b t refs : List Nat) (hb : StringBody b) (ht : LSeq t refs) (hnq : t.head? ≠ some 39) : LSeq (39 :: (b ++ 39 :: t)) refs
+  | ref (ds t refs : List Nat) (hne : ds ≠ []) (hds : ds.all StepModel.isDigit = true)
+      (hhi : StepModel.digitsVal ds 0 ≤ instanceIdMax) (ht : LSeq t refs)
+      (hnd : ∀ c, t.head? = some c → StepModel.isDigit c = false) : LSeq (35 :: (ds ++ t)) (StepModel.digitsVal ds 0 :: refs)
+  | cmt (body t refs : List Nat) (hb : NoClose body) (ht : LSeq t refs) : LSeq (47 :: 42 :: (body ++ 42 :: 47 :: t)) refs
+  | nest (inner t r1 r2 : List Nat) (hi : LSeq inner r1) (ht : LSeq t r2) : LSeq (40 :: (inner ++ 41 :: t)) (r1 ++ r2)
 
-/-- a token followed by something that is neither a digit nor an apostrophe -/
-theorem seekEnd_tok (t : List Nat) (refs : List Nat) (h : LazyTok t refs) (hs : Small t) (k f : Nat) (d : Int) (acc : List Nat)
-    (r : Bytes) (hr1 : ∀ c, r.head? = some c → isDigit c = false) (hr2 : r.head? ≠ some '\'') (hf : t.length + k ≤ f) :
-    ∃ f', k ≤ f' ∧ seekEnd f d acc (cs t ++ r) = seekEnd f' d (refs.reverse ++ acc) r := by
-  cases h with
-  | plain t hp =>
-    refine ⟨f - t.length, by omega, ?_⟩
-    have : f = (f - t.length) + t.length := by omega
-    rw [this, seekEnd_plains t hs hp]; simp
-  | string b hb =>
+theorem head_cs_digit (t : List Nat) (hs : Small t) (r : Bytes) (ht : ∀ c, t.head? = some c → StepModel.isDigit c = false)
+    (hr : ∀ c, r.head? = some c → isDigit c = false) : ∀ c, (cs t ++ r).head? = some c → isDigit c = false := by
+  cases t with
+  | nil => simpa [cs] using hr
+  | cons a u =>
+    intro c hc
+    simp only [cs_cons, List.cons_append, List.head?_cons, Option.some.injEq] at hc
+    rw [← hc, isDigit_ch a hs.cons.1]; exact ht a rfl
+
+theorem head_cs_quote (t : List Nat) (hs : Small t) (r : Bytes) (ht : t.head? ≠ some 39) (hr : r.head? ≠ some '\'') :
+    (cs t ++ r).head? ≠ some '\'' := by
+  cases t with
+  | nil => simpa [cs] using hr
+  | cons a u =>
+    simp only [cs_cons, List.cons_append, List.head?_cons, ne_eq, Option.some.injEq]
+    have : a ≠ 39 := by simpa using ht
+    have := ch_ne_quote a hs.cons.1 this
+    simpa using this
+
+/-- `seekInstanceEnd` over such a sequence, followed by something that is neither a digit nor an apostrophe -/
+theorem seekEnd_lseq (hraw : commentsRaw = true) : ∀ (t refs : List Nat), LSeq t refs → Small t →
+    ∀ (k f : Nat) (d : Int) (acc : List Nat) (r : Bytes), 1 ≤ d → (∀ c, r.head? = some c → isDigit c = false) → r.head? ≠ some '\'' →
+      t.length + k ≤ f → ∃ f', k ≤ f' ∧ seekEnd f d acc (cs t ++ r) = seekEnd f' d (refs.reverse ++ acc) r := by
+  intro t refs h
+  induction h with
+  | nil => intro _ k f d acc r _ _ _ hf; exact ⟨f, by simpa using hf, by simp [cs]⟩
+  | plain c t refs hc _ ih =>
+    intro hs k f d acc r hd hr1 hr2 hf
     obtain ⟨f0, rfl⟩ : ∃ f0, f = f0 + 1 := ⟨f - 1, by simp at hf; omega⟩
-    refine ⟨f0, by simp at hf; omega, ?_⟩
-    have hsb : Small b := hs.cons.2.app.1
-    have e : cs (39 :: (b ++ [39])) ++ r = '\'' :: (cs b ++ '\'' :: r) := by simp [cs, ch]
+    obtain ⟨f', h1, h2⟩ := ih hs.cons.2 k f0 d acc r hd hr1 hr2 (by simp at hf; omega)
+    refine ⟨f', h1, ?_⟩
+    rw [cs_cons, List.cons_append, seekEnd_char _ _ _ _ _ (lplain_ch c hs.cons.1 hc)]
+    exact h2
+  | str b t refs hb _ hnq ih =>
+    intro hs k f d acc r hd hr1 hr2 hf
+    have hs1 : Small (b ++ 39 :: t) := hs.cons.2
+    have hsb : Small b := hs1.app.1
+    have hst : Small t := hs1.app.2.cons.2
+    obtain ⟨f0, rfl⟩ : ∃ f0, f = f0 + 1 := ⟨f - 1, by simp at hf; omega⟩
+    obtain ⟨f', h1, h2⟩ := ih hst k f0 d acc r hd hr1 hr2 (by simp at hf; omega)
+    refine ⟨f', h1, ?_⟩
+    have e : cs (39 :: (b ++ 39 :: t)) ++ r = '\'' :: (cs b ++ '\'' :: (cs t ++ r)) := by simp [cs, ch]
     have e1 : ('\'' == '(') = false := by decide
     have e2 : ('\'' == '/') = false := by decide
     rw [e]
-    simp only [seekEnd, e1, e2, beq_self_eq_true, ↓reduceIte, Bool.false_eq_true, strRest_sb b hb hsb r hr2]
-    simp
-  | ref ds hne hds hhi =>
+    simp only [seekEnd, e1, e2, beq_self_eq_true, ↓reduceIte, Bool.false_eq_true,
+      strRest_sb b hb hsb (cs t ++ r) (head_cs_quote t hst r hnq hr2)]
+    exact h2
+  | ref ds t refs hne hds hhi _ hnd ih =>
+    intro hs k f d acc r hd hr1 hr2 hf
+    have hs1 : Small (ds ++ t) := hs.cons.2
+    have hsd : Small ds := hs1.app.1
+    have hst : Small t := hs1.app.2
     obtain ⟨f0, rfl⟩ : ∃ f0, f = f0 + 1 := ⟨f - 1, by simp at hf; omega⟩
-    refine ⟨f0, by simp at hf; omega, ?_⟩
-    have hsd : Small ds := hs.cons.2
-    have hd := all_digit_cs ds hsd hds
+    obtain ⟨f', h1, h2⟩ := ih hst k f0 d (StepModel.digitsVal ds 0 :: acc) r hd hr1 hr2 (by simp at hf; omega)
+    refine ⟨f', h1, ?_⟩
+    have hdg := all_digit_cs ds hsd hds
     obtain ⟨d0, dt, hdd⟩ : ∃ d0 dt, cs ds = d0 :: dt := by
       cases ds with
       | nil => exact absurd rfl hne
       | cons a b => exact ⟨ch a, cs b, rfl⟩
-    have hd0 : isDigit d0 = true := by rw [hdd] at hd; simp at hd; exact hd.1
-    have htd : takeDigits (cs ds ++ r) = (cs ds, r) := takeDigits_append (cs ds) hd r hr1
-    have hsk : skipWS (cs ds ++ r) = cs ds ++ r := by rw [hdd]; exact skipWS_nonspace _ _ (isDigit_not_space d0 hd0)
+    have hd0 : isDigit d0 = true := by rw [hdd] at hdg; simp at hdg; exact hdg.1
+    have hR := head_cs_digit t hst r hnd hr1
+    have htd : takeDigits (cs ds ++ (cs t ++ r)) = (cs ds, cs t ++ r) := takeDigits_append (cs ds) hdg _ hR
+    have hsk : skipWS (cs ds ++ (cs t ++ r)) = cs ds ++ (cs t ++ r) := by
+      rw [hdd]; exact skipWS_nonspace _ _ (isDigit_not_space d0 hd0)
     have hv : digitsVal (cs ds) = StepModel.digitsVal ds 0 := digitsVal_cs0 ds hsd
-    have hgt : ¬ digitsVal (cs ds) > instanceIdMax := by rw [hv]; omega
-    have e : cs (35 :: ds) ++ r = '#' :: (cs ds ++ r) := by simp [cs, ch]
+    have e : cs (35 :: (ds ++ t)) ++ r = '#' :: (cs ds ++ (cs t ++ r)) := by simp [cs, ch]
     rw [e]
     simp (config := { decide := true }) only [seekEnd, Bool.false_eq_true, ↓reduceIte]
     rw [hsk]
-    rw [hdd] at htd hgt hv ⊢
+    rw [hdd] at htd hv ⊢
     simp only [List.cons_append, hd0, ↓reduceIte]
     rw [← List.cons_append, htd]
     simp only [hv]
     have hgt' : ¬ StepModel.digitsVal ds 0 > instanceIdMax := by omega
-    simp [hgt']
+    simp only [hgt', ↓reduceIte]
+    simpa using h2
+  | cmt body t refs hb _ ih =>
+    intro hs k f d acc r hd hr1 hr2 hf
+    have hs1 : Small (body ++ 42 :: 47 :: t) := hs.cons.2.cons.2
+    have hsb : Small body := hs1.app.1
+    have hst : Small t := hs1.app.2.cons.2.cons.2
+    obtain ⟨f0, rfl⟩ : ∃ f0, f = f0 + 1 := ⟨f - 1, by simp at hf; omega⟩
+    obtain ⟨f', h1, h2⟩ := ih hst k f0 d acc r hd hr1 hr2 (by simp at hf; omega)
+    refine ⟨f', h1, ?_⟩
+    have e : cs (47 :: 42 :: (body ++ 42 :: 47 :: t)) ++ r = '/' :: '*' :: (cs body ++ '*' :: '/' :: (cs t ++ r)) := by
+      simp [cs, ch]
+    have hnc : noCloseFrom '\x00' (cs body) = true := noClose_cs body hsb hb 0 (by omega) (by simp)
+    have hsc : skipComment f0 ('*' :: (cs body ++ '*' :: '/' :: (cs t ++ r))) = .ok (cs t ++ r) := by
+      unfold skipComment; rw [hraw]; simp only [↓reduceIte]
+      exact rawLoop_body _ (cs body) _ hnc
+    have e1 : ('/' == '(') = false := by decide
+    rw [e]
+    simp only [seekEnd, e1, beq_self_eq_true, ↓reduceIte, List.head?_cons, hsc, Bool.false_eq_true]
+    exact h2
+  | nest inner t r1 r2 _ _ ihi iht =>
+    intro hs k f d acc r hd hr1 hr2 hf
+    have hs1 : Small (inner ++ 41 :: t) := hs.cons.2
+    have hsi : Small inner := hs1.app.1
+    have hst : Small t := hs1.app.2.cons.2
+    obtain ⟨f0, rfl⟩ : ∃ f0, f = f0 + 1 := ⟨f - 1, by simp at hf; omega⟩
+    have hlen : (40 :: (inner ++ 41 :: t)).length = inner.length + t.length + 2 := by simp; omega
+    obtain ⟨fa, ha1, ha2⟩ := ihi hsi (t.length + k + 1) f0 (d + 1) acc (')' :: (cs t ++ r)) (by omega)
+      (fun c hc => by simp at hc; rw [← hc]; decide) (by simp) (by omega)
+    obtain ⟨fb, rfl⟩ : ∃ j, fa = j + 1 := ⟨fa - 1, by omega⟩
+    obtain ⟨f', h1, h2⟩ := iht hst k fb d (r1.reverse ++ acc) r hd hr1 hr2 (by omega)
+    refine ⟨f', h1, ?_⟩
+    have e : cs (40 :: (inner ++ 41 :: t)) ++ r = '(' :: (cs inner ++ (')' :: (cs t ++ r))) := by simp [cs, ch]
+    rw [e]
+    have step1 : seekEnd (f0 + 1) d acc ('(' :: (cs inner ++ (')' :: (cs t ++ r)))) =
+        seekEnd f0 (d + 1) acc (cs inner ++ (')' :: (cs t ++ r))) := by
+      simp only [seekEnd, beq_self_eq_true, ↓reduceIte]
+    rw [step1, ha2]
+    have hne : ¬ (d + 1 - 1 = 0) := by omega
+    have step2 : seekEnd (fb + 1) (d + 1) (r1.reverse ++ acc) (')' :: (cs t ++ r)) =
+        seekEnd fb d (r1.reverse ++ acc) (cs t ++ r) := by
+      simp (config := { decide := true }) only [seekEnd, Bool.false_eq_true, ↓reduceIte, beq_iff_eq, hne]
+      congr 1; omega
+    rw [step2, h2]
+    simp
+
+theorem lseq_plains : ∀ (t : List Nat), t.all lplain = true → LSeq t [] := by
+  intro t
+  induction t with
+  | nil => intro _; exact LSeq.nil
+  | cons a u ih =>
+    intro h
+    simp only [List.all_cons, Bool.and_eq_true] at h
+    exact LSeq.plain a u [] h.1 (ih h.2)
+
+/-- concatenation, when the second part starts with neither a digit nor an apostrophe (or is empty) -/
+theorem LSeq.append {a b r1 r2 : List Nat} (ha : LSeq a r1) (hb : LSeq b r2)
+    (hq : b.head? ≠ some 39) (hd : ∀ c, b.head? = some c → StepModel.isDigit c = false) : LSeq (a ++ b) (r1 ++ r2) := by
+  induction ha with
+  | nil => simpa using hb
+  | plain c t refs hc _ ih => exact LSeq.plain c _ _ hc ih
+  | str bd t refs hbd _ hnq ih =>
+    have : 39 :: (bd ++ 39 :: t) ++ b = 39 :: (bd ++ 39 :: (t ++ b)) := by simp
+    rw [this]
+    refine LSeq.str bd _ _ hbd ih ?_
+    cases t with
+    | nil => simpa using hq
+    | cons x y => simpa using hnq
+  | ref ds t refs hne hds hhi _ hnd ih =>
+    have : 35 :: (ds ++ t) ++ b = 35 :: (ds ++ (t ++ b)) := by simp
+    rw [this]
+    refine LSeq.ref ds _ _ hne hds hhi ih ?_
+    cases t with
+    | nil => simpa using hd
+    | cons x y => simpa using hnd
+  | cmt body t refs hbd _ ih =>
+    have : 47 :: 42 :: (body ++ 42 :: 47 :: t) ++ b = 47 :: 42 :: (body ++ 42 :: 47 :: (t ++ b)) := by simp
+    rw [this]
+    exact LSeq.cmt body _ _ hbd ih
+  | nest inner t q1 q2 hi _ _ iht =>
+    have : 40 :: (inner ++ 41 :: t) ++ b = 40 :: (inner ++ 41 :: (t ++ b)) := by simp
+    rw [this, List.append_assoc]
+    exact LSeq.nest inner _ _ _ hi iht
+
+theorem space_lplain (b : Nat) (h : StepModel.isSpace b = true) : lplain b = true := by
+  unfold StepModel.isSpace at h
+  simp only [Bool.or_eq_true, Bool.and_eq_true, beq_iff_eq, decide_eq_true_eq] at h
+  have h' : b = 32 ∨ (9 ≤ b ∧ b ≤ 13) := h
+  unfold lplain
+  simp only [Bool.and_eq_true, bne_iff_ne, ne_eq]
+  omega
+
+/-- a separator sequence (blanks and comments) -/
+theorem lseq_seps : ∀ (s : List Nat), Seps s → LSeq s [] := by
+  intro s hs
+  induction hs with
+  | blanks sp hsp =>
+    apply lseq_plains
+    rw [List.all_eq_true] at hsp ⊢
+    intro x hx
+    exact space_lplain x (hsp x hx)
+  | comment sp body t hsp hb _ ih =>
+    have h1 : LSeq sp [] := by
+      apply lseq_plains
+      rw [List.all_eq_true] at hsp ⊢
+      intro x hx
+      exact space_lplain x (hsp x hx)
+    have h2 : LSeq (47 :: 42 :: (body ++ 42 :: 47 :: t)) [] := LSeq.cmt body t [] hb ih
+    have := LSeq.append h1 h2 (by simp) (fun c hc => by simp at hc; rw [← hc]; decide)
+    simpa using this
+
+/-- the parameter tokens the composition covers, with the references they mention (`LSeq`): any token of bytes without
+    `( ) / ' = #` (`$`, `*`, INTEGER, REAL, NUMBER, `.ENUM.`, `"BINARY"`), a string literal of the grammar, an entity reference, and
+    parenthesised sequences of these with separators — aggregates and typed SELECT values -/
+abbrev LazyTok := LSeq
+
+theorem LazyTok.plain (t : List Nat) (h : t.all lplain = true) : LazyTok t [] := lseq_plains t h
+theorem LazyTok.string (b : List Nat) (h : StringBody b) : LazyTok (39 :: (b ++ [39])) [] := LSeq.str b [] [] h LSeq.nil (by simp)
+theorem LazyTok.ref (ds : List Nat) (hne : ds ≠ []) (hds : ds.all StepModel.isDigit = true)
+    (hhi : StepModel.digitsVal ds 0 ≤ instanceIdMax) : LazyTok (35 :: ds) [StepModel.digitsVal ds 0] := by
+  have := LSeq.ref ds [] [] hne hds hhi LSeq.nil (fun c hc => by simp at hc)
+  simpa using this
+
+/-- a token followed by something that is neither a digit nor an apostrophe -/
+theorem seekEnd_tok (hraw : commentsRaw = true) (t : List Nat) (refs : List Nat) (h : LazyTok t refs) (hs : Small t) (k f : Nat)
+    (d : Int) (hd : 1 ≤ d) (acc : List Nat)
+    (r : Bytes) (hr1 : ∀ c, r.head? = some c → isDigit c = false) (hr2 : r.head? ≠ some '\'') (hf : t.length + k ≤ f) :
+    ∃ f', k ≤ f' ∧ seekEnd f d acc (cs t ++ r) = seekEnd f' d (refs.reverse ++ acc) r :=
+  seekEnd_lseq hraw t refs h hs k f d acc r hd hr1 hr2 hf
 
 
 /-! ### parameter lists, records, sections of the eager grammar under the lazy scanner -/
 
-/-- the references a parameter token mentions -/
-def tokRefs : List Nat → List Nat
-  | 35 :: ds => [StepModel.digitsVal ds 0]
+/-- the entity references in a value the eager reader stores -/
+def atomRefs {F : Type} : Atom F → List Nat
+  | .ref i => [i.toNat]
   | _ => []
-
-theorem lazyTok_refs (t refs : List Nat) (h : LazyTok t refs) : refs = tokRefs t := by
-  cases h with
-  | plain t hp =>
-    cases t with
-    | nil => rfl
-    | cons a u =>
-      simp only [List.all_cons, Bool.and_eq_true] at hp
-      have : a ≠ 35 := by
-        have := hp.1; simp only [lplain, Bool.and_eq_true, bne_iff_ne, ne_eq] at this; exact this.2
-      unfold tokRefs; split
-      · rename_i heq; injection heq with h1 _; exact absurd h1 this
-      · rfl
-  | string b hb => rfl
-  | ref ds _ _ _ => rfl
+def elemRefs {F : Type} : Elem F → List Nat
+  | .atom a => atomRefs a
+  | .sel _ a => atomRefs a
+def valRefs {F : Type} : MVal F → List Nat
+  | .one e => elemRefs e
+  | .aggr es => es.flatMap elemRefs
+  | _ => []
 
 variable {F : Type}
 
-/-- a parameter the lazy side covers: a `LazyTok` token between separator sequences, all bytes below 256 -/
+/-- a parameter the lazy side covers: a `LazyTok` token — with, as its references, the entity references in the value the eager
+    reader stores for it — between separator sequences, all bytes below 256 -/
 structure LazyParam (p : Param F) : Prop where
-  tok : LazyTok p.tok (tokRefs p.tok)
+  tok : LazyTok p.tok (valRefs p.v)
   hb : Seps p.before
   ha : Seps p.after
   sm : Small (p.before ++ (p.tok ++ p.after))
 
-def paramsRefs (ps : List (Param F)) : List Nat := ps.flatMap (fun p => tokRefs p.tok)
+def paramsRefs (ps : List (Param F)) : List Nat := ps.flatMap (fun p => valRefs p.v)
 
 /-- the first byte after a separator sequence followed by `,` or `)` is no digit and no apostrophe -/
 theorem after_head (hraw : commentsRaw = true) (s : List Nat) (hs : Seps s) (hsm : Small s) (c : Char) (hc : c = ',' ∨ c = ')') (r : Bytes) :
@@ -466,10 +625,10 @@ theorem after_head (hraw : commentsRaw = true) (s : List Nat) (hs : Seps s) (hsm
 
 /-- one parameter (layout, token, layout) followed by its delimiter -/
 theorem seekEnd_param (hraw : commentsRaw = true) (p : Param F) (hp : LazyParam p) (c : Char) (hc : c = ',' ∨ c = ')')
-    (k f : Nat) (d : Int) (acc : List Nat) (r : Bytes)
+    (k f : Nat) (d : Int) (hd : 1 ≤ d) (acc : List Nat) (r : Bytes)
     (hf : (p.before ++ (p.tok ++ p.after)).length + k ≤ f) :
     ∃ f', k ≤ f' ∧ seekEnd f d acc (cs (p.before ++ (p.tok ++ p.after)) ++ c :: r) =
-      seekEnd f' d ((tokRefs p.tok).reverse ++ acc) (c :: r) := by
+      seekEnd f' d ((valRefs p.v).reverse ++ acc) (c :: r) := by
   have s1 := hp.sm.app
   have s2 := s1.2.app
   obtain ⟨g1, w1, hg1, hw1, he1⟩ := seps_gap hraw p.before hp.hb s1.1
@@ -480,26 +639,26 @@ theorem seekEnd_param (hraw : commentsRaw = true) (p : Param F) (hp : LazyParam 
   obtain ⟨fa, hka, hea⟩ := seekEnd_gap hraw w1 hw1 g1 hg1 (p.tok.length + p.after.length + k) f d acc
     (cs p.tok ++ (cs p.after ++ c :: r)) (by omega)
   have hah := after_head hraw p.after hp.ha s2.2 c hc r
-  obtain ⟨fb, hkb, heb⟩ := seekEnd_tok p.tok _ hp.tok s2.1 (p.after.length + k) fa d acc (cs p.after ++ c :: r) hah.1 hah.2 (by omega)
-  obtain ⟨fc, hkc, hec⟩ := seekEnd_gap hraw w2 hw2 g2 hg2 k fb d ((tokRefs p.tok).reverse ++ acc) (c :: r) (by omega)
+  obtain ⟨fb, hkb, heb⟩ := seekEnd_tok hraw p.tok _ hp.tok s2.1 (p.after.length + k) fa d hd acc (cs p.after ++ c :: r) hah.1 hah.2 (by omega)
+  obtain ⟨fc, hkc, hec⟩ := seekEnd_gap hraw w2 hw2 g2 hg2 k fb d ((valRefs p.v).reverse ++ acc) (c :: r) (by omega)
   refine ⟨fc, hkc, ?_⟩
   rw [cs_append, cs_append, List.append_assoc, List.append_assoc, he1, gapRender_append, hea, heb, he2, gapRender_append, hec]
 
 /-- the parameter list up to its closing parenthesis -/
 theorem seekEnd_params (hraw : commentsRaw = true) : ∀ (ps : List (Param F)), ps ≠ [] → (∀ p ∈ ps, LazyParam p) →
-    ∀ (k f : Nat) (d : Int) (acc : List Nat) (r : Bytes), (renderParams ps).length + k ≤ f →
+    ∀ (k f : Nat) (d : Int) (acc : List Nat) (r : Bytes), 1 ≤ d → (renderParams ps).length + k ≤ f →
       ∃ f', k + 1 ≤ f' ∧ seekEnd f d acc (cs (renderParams ps) ++ r) = seekEnd f' d ((paramsRefs ps).reverse ++ acc) (')' :: r) := by
   intro ps
   induction ps with
   | nil => intro h; exact absurd rfl h
   | cons p qs ih =>
-    intro _ hall k f d acc r hf
+    intro _ hall k f d acc r hd hf
     have hp := hall p (by simp)
     cases qs with
     | nil =>
       simp only [renderParams] at hf ⊢
       have hlen : (p.before ++ (p.tok ++ (p.after ++ [41]))).length = (p.before ++ (p.tok ++ p.after)).length + 1 := by simp; omega
-      obtain ⟨f', hk, he⟩ := seekEnd_param hraw p hp ')' (Or.inr rfl) (k + 1) f d acc r (by omega)
+      obtain ⟨f', hk, he⟩ := seekEnd_param hraw p hp ')' (Or.inr rfl) (k + 1) f d hd acc r (by omega)
       refine ⟨f', hk, ?_⟩
       have e : cs (p.before ++ (p.tok ++ (p.after ++ [41]))) ++ r = cs (p.before ++ (p.tok ++ p.after)) ++ ')' :: r := by
         simp [cs, ch]
@@ -509,11 +668,11 @@ theorem seekEnd_params (hraw : commentsRaw = true) : ∀ (ps : List (Param F)), 
       simp only [renderParams] at hf ⊢
       have hlen : (p.before ++ (p.tok ++ (p.after ++ 44 :: renderParams (q :: qt)))).length =
           (p.before ++ (p.tok ++ p.after)).length + 1 + (renderParams (q :: qt)).length := by simp; omega
-      obtain ⟨fa, hka, hea⟩ := seekEnd_param hraw p hp ',' (Or.inl rfl) ((renderParams (q :: qt)).length + k + 1) f d acc
+      obtain ⟨fa, hka, hea⟩ := seekEnd_param hraw p hp ',' (Or.inl rfl) ((renderParams (q :: qt)).length + k + 1) f d hd acc
         (cs (renderParams (q :: qt)) ++ r) (by omega)
       obtain ⟨fb, rfl⟩ : ∃ j, fa = j + 1 := ⟨fa - 1, by omega⟩
       obtain ⟨f', hk, he⟩ := ih (by simp) (fun x hx => hall x (List.mem_cons_of_mem _ hx)) k fb d
-        ((tokRefs p.tok).reverse ++ acc) r (by omega)
+        ((valRefs p.v).reverse ++ acc) r hd (by omega)
       refine ⟨f', hk, ?_⟩
       have e : cs (p.before ++ (p.tok ++ (p.after ++ 44 :: renderParams (q :: qt)))) ++ r =
           cs (p.before ++ (p.tok ++ p.after)) ++ ',' :: (cs (renderParams (q :: qt)) ++ r) := by
@@ -689,7 +848,7 @@ theorem nextInstance_lrec (hraw : commentsRaw = true) (lead : List Nat) (hlead :
     obtain ⟨fa, hka, hea⟩ := seekEnd_gap hraw w3 hw3 g3 hg3 (P.length + 4) f 0 [] ('(' :: P) (by omega)
     obtain ⟨fb, rfl⟩ : ∃ j, fa = j + 1 := ⟨fa - 1, by omega⟩
     obtain ⟨fc, hkc, hec⟩ := seekEnd_params hraw r.ps hlex.pne hlz.ps (r.s4.length + rest.length + 3) fb 1 []
-      (cs r.s4 ++ (';' :: rest)) (by omega)
+      (cs r.s4 ++ (';' :: rest)) (by decide) (by omega)
     obtain ⟨fd, rfl⟩ : ∃ j, fc = j + 1 := ⟨fc - 1, by omega⟩
     have hbt := betweenTokens_gap g4 hg4 w4 hw4 ';' (by decide) (by decide) (by decide) rest fd (by
       have := gapRender_length g4 w4 (';' :: rest); simp only [List.length_cons] at this; omega)
@@ -1074,5 +1233,132 @@ theorem stepReadInput_lrec (hraw : commentsRaw = true) (lead : List Nat) (hlead 
   simp only [List.length_cons] at hi1
   obtain ⟨fj, rfl⟩ : ∃ j, fi = j + 1 := ⟨fi - 1, by omega⟩
   exact findOne_hit '(' fj P (by decide) (by decide) (by decide)
+
+/-! ### the same without a bound on the bytes: the character classes bound them -/
+
+theorem digit_small (c : Nat) (h : StepModel.isDigit c = true) : c < 256 := by
+  unfold StepModel.isDigit at h
+  simp only [Bool.and_eq_true, decide_eq_true_eq] at h
+  have h' : 48 ≤ c ∧ c ≤ 57 := h
+  omega
+
+theorem alnum_small (c : Nat) (h : StepModel.isAlnum c = true) : c < 256 := by
+  unfold StepModel.isAlnum StepModel.isAlpha StepModel.isUpper StepModel.isLower StepModel.isDigit at h
+  simp only [Bool.or_eq_true, Bool.and_eq_true, decide_eq_true_eq] at h
+  have h' : ((65 ≤ c ∧ c ≤ 90) ∨ (97 ≤ c ∧ c ≤ 122)) ∨ (48 ≤ c ∧ c ≤ 57) := h
+  omega
+
+theorem pw_small (c : Nat) (h : pw c = true) : c < 256 := by
+  unfold pw at h
+  simp only [Bool.or_eq_true, beq_iff_eq] at h
+  rcases h with h | h
+  · exact alnum_small c h
+  · have h' : c = 95 := h
+    omega
+
+theorem xdigit_small (c : Nat) (h : StepModel.isXDigit c = true) : c < 256 := by
+  unfold StepModel.isXDigit StepModel.isDigit at h
+  simp only [Bool.or_eq_true, Bool.and_eq_true, decide_eq_true_eq] at h
+  have h' : ((48 ≤ c ∧ c ≤ 57) ∨ (65 ≤ c ∧ c ≤ 70)) ∨ (97 ≤ c ∧ c ≤ 102) := h
+  omega
+
+theorem all_lplain_of0 (p : Nat → Bool) (hp : ∀ c, p c = true → lplain c = true) :
+    ∀ (l : List Nat), l.all p = true → l.all lplain = true := by
+  intro l
+  induction l with
+  | nil => intro _; rfl
+  | cons a t ih =>
+    intro h
+    simp only [List.all_cons, Bool.and_eq_true] at h ⊢
+    exact ⟨hp a h.1, ih h.2⟩
+
+theorem digit_lplain0 (c : Nat) (h : StepModel.isDigit c = true) : lplain c = true := digit_lplain' c (digit_small c h) h
+theorem pw_lplain0 (c : Nat) (h : pw c = true) : lplain c = true := pw_lplain' c (pw_small c h) h
+theorem xdigit_lplain0 (c : Nat) (h : StepModel.isXDigit c = true) : lplain c = true := xdigit_lplain' c (xdigit_small c h) h
+
+theorem isInteger_lplain0 (t : List Nat) (h : isInteger t = true) : t.all lplain = true := by
+  obtain ⟨sg, hsg, ht, _⟩ := splitSign_append t
+  unfold isInteger at h
+  simp only [Bool.and_eq_true, allDigits] at h
+  rw [ht, List.all_append, sign_lplain hsg, all_lplain_of0 _ digit_lplain0 _ h.2]
+  rfl
+
+theorem isReal_lplain0 (t : List Nat) (h : isReal t = true) : t.all lplain = true := by
+  obtain ⟨sg, ip, fp, ex, rfl, hsg, _, hip, hfp, hex⟩ := isReal_shape t h
+  have h1 := sign_lplain hsg
+  have h2 := all_lplain_of0 _ digit_lplain0 ip hip
+  have h3 := all_lplain_of0 _ digit_lplain0 fp hfp
+  have h4 : (exText 69 ex).all lplain = true := by
+    cases ex with
+    | none => rfl
+    | some p =>
+      obtain ⟨esg, ed⟩ := p
+      obtain ⟨hes, _, hed⟩ := hex
+      have := sign_lplain hes
+      have := all_lplain_of0 _ digit_lplain0 ed hed
+      simp_all [exText, lplain]
+  simp_all [realText, lplain]
+
+/-! ### building `LSeq` for the eager reader's tokens -/
+
+theorem LSeq.plains_append (a : List Nat) (ha : a.all lplain = true) {b r : List Nat} (hb : LSeq b r) : LSeq (a ++ b) r := by
+  induction a with
+  | nil => exact hb
+  | cons x t ih =>
+    simp only [List.all_cons, Bool.and_eq_true] at ha
+    exact LSeq.plain x _ _ ha.1 (ih ha.2)
+
+theorem spaces_lplain (sp : List Nat) (h : sp.all StepModel.isSpace = true) : sp.all lplain = true := by
+  rw [List.all_eq_true] at h ⊢
+  exact fun x hx => space_lplain x (h x hx)
+
+theorem LSeq.seps_append {s : List Nat} (hs : Seps s) : ∀ {b r : List Nat}, LSeq b r → LSeq (s ++ b) r := by
+  induction hs with
+  | blanks sp hsp => intro b r hb; exact LSeq.plains_append sp (spaces_lplain sp hsp) hb
+  | comment sp body t hsp hbd _ ih =>
+    intro b r hb
+    have e : sp ++ 47 :: 42 :: (body ++ 42 :: 47 :: t) ++ b = sp ++ (47 :: 42 :: (body ++ 42 :: 47 :: (t ++ b))) := by simp
+    rw [e]
+    exact LSeq.plains_append sp (spaces_lplain sp hsp) (LSeq.cmt body _ _ hbd (ih hb))
+
+set_option maxRecDepth 100000 in
+theorem digit_not_space : ∀ b, b < 256 → StepModel.isDigit b = true → StepModel.isSpace b = false := by decide
+
+/-- what a separator sequence followed by `x` starts with is neither an apostrophe nor a digit, when `x` is neither -/
+theorem seps_then_safe (s : List Nat) (hs : Seps s) (x : Nat) (rest : List Nat) (hx1 : x ≠ 39) (hx2 : StepModel.isDigit x = false) :
+    (s ++ x :: rest).head? ≠ some 39 ∧ ∀ c, (s ++ x :: rest).head? = some c → StepModel.isDigit c = false := by
+  obtain ⟨c, u, hcu, hc⟩ := seps_then s hs x rest (fun c => c ≠ 39 ∧ StepModel.isDigit c = false)
+    (fun c hc => by
+      have := space_lplain c hc
+      refine ⟨fun e => by rw [e] at hc; exact absurd hc (by decide), ?_⟩
+      cases hd : StepModel.isDigit c with
+      | false => rfl
+      | true => exact absurd hc (by rw [digit_not_space c (digit_small c hd) hd]; decide))
+    ⟨by decide, by decide⟩ ⟨hx1, hx2⟩
+  rw [hcu]
+  simp only [List.head?_cons, ne_eq, Option.some.injEq]
+  exact ⟨hc.1, fun z hz => by rw [← hz]; exact hc.2⟩
+
+/-- a token between separator sequences, followed by a delimiter and more -/
+theorem LSeq.item {before tok after : List Nat} {rt rr : List Nat} (hb : Seps before) (ht : LSeq tok rt) (ha : Seps after)
+    (x : Nat) (rest : List Nat) (hx1 : x ≠ 39) (hx2 : StepModel.isDigit x = false) (hr : LSeq (x :: rest) rr) :
+    LSeq (before ++ (tok ++ (after ++ x :: rest))) (rt ++ rr) := by
+  have hs := seps_then_safe after ha x rest hx1 hx2
+  exact LSeq.seps_append hb (LSeq.append ht (LSeq.seps_append ha hr) hs.1 hs.2)
+
+/-- … or by nothing -/
+theorem LSeq.item_last {before tok after : List Nat} {rt : List Nat} (hb : Seps before) (ht : LSeq tok rt) (ha : Seps after) :
+    LSeq (before ++ (tok ++ after)) rt := by
+  have h0 : LSeq after [] := lseq_seps after ha
+  have hq : after.head? ≠ some 39 ∧ ∀ c, after.head? = some c → StepModel.isDigit c = false := by
+    cases hh : after with
+    | nil => simp
+    | cons a u =>
+      -- `after ++ [44]` starts like `after`
+      have := seps_then_safe after ha 44 [] (by decide) (by decide)
+      rw [hh] at this
+      simpa using this
+  have := LSeq.seps_append hb (LSeq.append ht h0 hq.1 hq.2)
+  simpa using this
 
 end StepModel.Lazy
